@@ -122,11 +122,14 @@ Definition pack_bits (pad per per_idx : N) (bits : list N) : list N :=
 Definition mb_calc_block (header : list N) (numTx : N) (all : list hash) (mbits : list N) : res msg :=
   do height <- height_loop (mb_tree_width numTx) (lit lits_MerkleBlock_calcBlock 1) height_fuel
                  (lit lits_MerkleBlock_calcBlock 0);;
-  do st <- mb_traverse_build numTx all mbits (N.to_nat height) (lit lits_MerkleBlock_calcBlock 2) ([], []);;
+  (* if m.numTx > 0 { m.traverseAndBuild(height, 0) } *)
+  do st <- (if lit lits_MerkleBlock_calcBlock 2 <? numTx
+            then mb_traverse_build numTx all mbits (N.to_nat height) (lit lits_MerkleBlock_calcBlock 3) ([], [])
+            else Ok ([], []));;
   Ok (mkMsg header numTx (snd st)
-        (if lit lits_MerkleBlock_calcBlock 7 =? lit lits_MerkleBlock_calcBlock 8
-         then pack_bits (lit lits_MerkleBlock_calcBlock 4) (lit lits_MerkleBlock_calcBlock 5)
-                        (lit lits_MerkleBlock_calcBlock 7) (fst st)
+        (if lit lits_MerkleBlock_calcBlock 8 =? lit lits_MerkleBlock_calcBlock 9
+         then pack_bits (lit lits_MerkleBlock_calcBlock 5) (lit lits_MerkleBlock_calcBlock 6)
+                        (lit lits_MerkleBlock_calcBlock 8) (fst st)
          else [])).
 
 (* the loop over block.Transactions(): matchedBits and matchedIndices *)
@@ -212,10 +215,12 @@ Definition bl_new (header : list N) (leaves : list hash) (matched_map : nat -> b
   let sel := map matched_map (seq 0 (length leaves)) in
   let mbits := matched_bits (lit lits_NewMerkleBlock 2) (lit lits_NewMerkleBlock 3) sel in
   do height <- height_loop (bl_tree_width numTx) (lit lits_NewMerkleBlock 5) height_fuel (lit lits_NewMerkleBlock 4);;
-  do st <- bl_traverse_build numTx leaves mbits (N.to_nat height) (lit lits_NewMerkleBlock 6) ([], []);;
+  do st <- (if lit lits_NewMerkleBlock 6 <? numTx
+            then bl_traverse_build numTx leaves mbits (N.to_nat height) (lit lits_NewMerkleBlock 7) ([], [])
+            else Ok ([], []));;
   Ok (mkMsg header numTx (snd st)
-        (if lit lits_NewMerkleBlock 11 =? lit lits_NewMerkleBlock 12
-         then pack_bits (lit lits_NewMerkleBlock 8) (lit lits_NewMerkleBlock 9) (lit lits_NewMerkleBlock 11) (fst st)
+        (if lit lits_NewMerkleBlock 12 =? lit lits_NewMerkleBlock 13
+         then pack_bits (lit lits_NewMerkleBlock 9) (lit lits_NewMerkleBlock 10) (lit lits_NewMerkleBlock 12) (fst st)
          else []),
       matched_indices 0 sel).
 
